@@ -71,11 +71,27 @@ def run_walk(rng, name, cfg, objs, focus, n_agents, n_steps, perturb, resets, se
         history = []         # replay: list of ops as python data
         snapshots = []       # (agent, deep snapshot, live GameState object) of every returned view
 
+        reset_sps = {}
+        sp_tables = {}       # the coordinator keeps ONE start-position table per role for its whole life: so does the walk, per start position
+
+        def sp_table(sp):
+            k = id(sp)
+            if k not in sp_tables:
+                sp_tables[k] = (sp, WR.start_pos_dict(sp))
+            cur = sp_tables[k][1]
+            if cur != WR.start_pos_dict(sp):
+                for hp in ("C08", "C02", "C03", "C12"):
+                    wk.hits.append((hp, "the start position table was modified by play", "the start position handed to the world for every join and reset of this role is no longer what was configured: an action wrote into it (later initial views will differ)",
+                                    {"kind": "walk", "scenario": name, "history": list(history), "start_position": sp}))
+                sp_tables[k] = (sp, WR.start_pos_dict(sp))
+                cur = sp_tables[k][1]
+            return cur
+
         def init_agent(ag, sp, reset_call=False):
             with WR.Recorder() as rec:
                 try:
                     fn = g.reset_agent if reset_call else g.register_agent
-                    gs = WL.run_coro(fn(("10.1.0.%d" % ag, 1), "Attacker", WR.start_pos_dict(sp)))
+                    gs = WL.run_coro(fn(("10.1.0.%d" % ag, 1), "Attacker", sp_table(sp)))
                 except Exception as e:
                     wk.hits.append(("C03", "initial view raises", f"building the initial view raised {type(e).__name__}: {e}",
                                     {"kind": "init", "scenario": name, "start_position": sp}))
@@ -113,7 +129,7 @@ def run_walk(rng, name, cfg, objs, focus, n_agents, n_steps, perturb, resets, se
                 dt = set(real[:2]) if anchored else {("User1", "DataFromServer1", 0, ""), ("Start", "Data", 0, "")}
                 if dt:
                     sp["data"] = {h: dt}
-            if focus == "C12" and own and "data" not in sp and rng.random() < 0.5:
+            if focus in ("C12", "C02", "C03", "C08") and own and "data" not in sp and rng.random() < 0.5:
                 # C12 does not ask the start position to be anchored: data the role is configured to know from the start on a
                 # host that holds none of its own (the usual exfiltration target) - what others put there later must reach this
                 # agent through FindData only
@@ -127,12 +143,12 @@ def run_walk(rng, name, cfg, objs, focus, n_agents, n_steps, perturb, resets, se
             # agents sharing hosts: all control the hosts that hold data and a common further host
             with_data = [i for i in all_ips if T0["data"].get(T0["ip2host"][i])]
             common = rng.sample(with_data, min(len(with_data), 3)) + rng.sample(all_ips, min(len(all_ips), 2))
-            starts = [{"nets": [], "hosts": [], "ctrl": list(dict.fromkeys(common))} for _ in range(n_agents)]
-            if focus == "C12" and rng.random() < 0.6:
+            one = {"nets": [], "hosts": [], "ctrl": list(dict.fromkeys(common))}      # one role, one start position (one table)
+            starts = [one for _ in range(n_agents)]
+            if focus in ("C12", "C02", "C03", "C08") and rng.random() < 0.6:
                 empty_common = [h for h in dict.fromkeys(common) if not T0["data"].get(T0["ip2host"][h])]
                 if empty_common:
-                    for st_ in starts:
-                        st_["data"] = {empty_common[0]: {("Operator", "Toolkit", 0, "")}}
+                    one["data"] = {empty_common[0]: {("Operator", "Toolkit", 0, "")}}
         views = []
         for ag in range(n_agents):
             gs = init_agent(ag, starts[ag])
@@ -162,7 +178,12 @@ def run_walk(rng, name, cfg, objs, focus, n_agents, n_steps, perturb, resets, se
                                     {"kind": "walk", "scenario": name, "history": list(history), "tables": diff}))
                 exfiltrated = {}
                 for ag in range(n_agents):
-                    sp = dict(starts[ag], ctrl=[c for c in starts[ag]["ctrl"] if c != "random"] or starts[ag]["ctrl"])
+                    if "random" in starts[ag]["ctrl"] and [c for c in starts[ag]["ctrl"] if c != "random"]:
+                        if id(starts[ag]) not in reset_sps:
+                            reset_sps[id(starts[ag])] = dict(starts[ag], ctrl=[c for c in starts[ag]["ctrl"] if c != "random"])
+                        sp = reset_sps[id(starts[ag])]
+                    else:
+                        sp = starts[ag]             # the very table of the join: one per role, episode after episode
                     gs = init_agent(ag, sp, reset_call=True)
                     if gs is None:
                         return wk
